@@ -51,11 +51,27 @@ def bounds(tier):
             "dtypes": DTYPES, "memory_kinds": MEMKINDS}
 
 
+def high_order_shapes(tier, seed):
+    """orders 6-10 with mode sizes 1-2 (one mode may have 3): beyond the exhaustive bound, sampled splits only"""
+    rs = np.random.RandomState(777 + seed)
+    out = []
+    for o in range(6, 11):
+        for _ in range(3 if tier == "quick" else 12):
+            sh = [int(rs.randint(1, 3)) for _ in range(o)]
+            if rs.rand() < 0.3:
+                sh[int(rs.randint(o))] = 3
+            out.append(sh)
+    return out
+
+
 def plan(tier, seed):
     cases = []
     for sh in shapes(tier):
         for dt in DTYPES:
             cases.append({"gen": "exhaustive", "shape": sh, "dtype": dt})
+    for sh in high_order_shapes(tier, seed):
+        for dt in (DTYPES[-3], DTYPES[1]):
+            cases.append({"gen": "high_order", "shape": sh, "dtype": dt, "seed": seed})
     # deterministic shuffle so that shards are balanced
     rs = np.random.RandomState(12345)
     rs.shuffle(cases)
@@ -213,6 +229,11 @@ def run_case(case, ctx):
     planes = value_planes(n, dt)
     first_dtype = (dt == DTYPES[0])
     kinds = MEMKINDS
+    high = case.get("gen") == "high_order"
+    if high:
+        planes, kinds = planes[:2], ("C", "perm")
+        hrs = np.random.RandomState(case.get("seed", 0) * 1000 + nd * 17 + n)
+        ctx.count("high_order_cases")
 
     def check(opname, params, fwd, E, inv=None):
         """fwd(T)->out must equal vals[E]; inv(out_like)->T must restore T from an independently built unfolding"""
@@ -301,8 +322,20 @@ def run_case(case, ctx):
                   ("partial_vec_to_tensor", lambda U, sb=sb, se=se: B.partial_vec_to_tensor(U, tuple(shape), skip_begin=sb, skip_end=se)))
     # matricize: every ordered split
     modes = list(range(nd))
-    for perm in itertools.permutations(modes):
-        for k in range(0, nd + 1):
+    if high:
+        # sampled ordered splits, with emphasis on few column modes left in natural order (the column_modes=None default)
+        splits = []
+        for _ in range(60):
+            perm = hrs.permutation(nd).tolist()
+            k = int(hrs.randint(0, nd + 1))
+            if hrs.rand() < 0.5:
+                k = int(hrs.randint(max(nd - 4, 0), nd + 1))
+                perm = perm[:k] + sorted(perm[k:])
+            splits.append((tuple(perm), k))
+    else:
+        splits = [(perm, k) for perm in itertools.permutations(modes) for k in range(0, nd + 1)]
+    for perm, k in splits:
+        if True:
             rows, cols = list(perm[:k]), list(perm[k:])
             E = E_matricize(shape, rows, cols)
             check("matricize", {"row_modes": rows, "column_modes": cols},
